@@ -1,7 +1,7 @@
 CONSTANTS
   Keys = {"a", "b"}
   NV = 3
-  MaxOps = 6
+  MaxOps = 1000
   Mode = "asfound"
   Alphabet = {"set", "del", "pop", "popitem", "update", "setdefault", "clear", "mutate", "flush", "reload", "reopen", "crash"}
 SPECIFICATION Spec
